@@ -7,7 +7,7 @@ internal failure the model of the parser can report is running out of its own fu
 Structure of the proof:
 * `PestShape.lean` — grammar-independent: a denotational reading `Sem` of grammar
   expressions (token lists and positions) and the soundness of the fuelled interpreter
-  with respect to any rule-level specification closed under the rule bodies (`sound`);
+  with respect to any rule-level specification closed under the rule bodies (`shape_sound`);
 * `PestText.lean` — grammar-independent: matched text in the atomic state;
 * `ParseGood.lean` — predicates `GoodE` / `GoodA` / `GoodTop` on pair trees and the proof
   that on such trees no `unwrap` site of `Parse.lean` is reached;
